@@ -218,6 +218,9 @@ pub fn run_c32(batch: &str, tape: &mut Tape, rep: &mut Report) {
     let nreq = tape.range(4, 14);
     let wcfg = if batch == "interleaved-all" {
         WorkerFaultCfg { http_error_permille: *tape.pick(&[0u64, 100, 300]), timeout_permille: *tape.pick(&[0u64, 50, 150]), reply_lost_permille: 0, max_latency_ms: *tape.pick(&[0u64, 20, 200]) }
+    } else if batch == "sequential-faults" {
+        // one request at a time, but individual worker calls fail (HTTP 500 / timeout): partial deploys, failed migrations
+        WorkerFaultCfg { http_error_permille: *tape.pick(&[150u64, 300, 500]), timeout_permille: *tape.pick(&[0u64, 100]), reply_lost_permille: 0, max_latency_ms: 0 }
     } else if batch == "reply-loss" {
         WorkerFaultCfg { http_error_permille: 100, timeout_permille: 50, reply_lost_permille: *tape.pick(&[100u64, 300]), max_latency_ms: 50 }
     } else {
@@ -265,6 +268,10 @@ pub fn run_c32(batch: &str, tape: &mut Tape, rep: &mut Report) {
     varpulis_cluster::verif_http::set_transport(Some(transport(net.clone())));
     let judge_count = batch != "reply-loss";
     let overlap = Arc::new(Mutex::new((0u64, false))); // (in flight, any overlap seen)
+    // what happened in this run that the listed known findings need: (a) two placement-changing requests overlapped
+    // in time, (b) a worker that was registered registered again, (c) a worker was deregistered / drained away
+    let causes: Arc<Mutex<BTreeSet<&'static str>>> = Arc::new(Mutex::new(BTreeSet::new()));
+    let mutating_in_flight = Arc::new(Mutex::new(0u64));
     let findings: Vec<(String, String)> = rt.block_on(async {
         start_clock();
         // sequential-core: no heartbeats at all (and a timeout nothing reaches), so that pipelines_running is purely the
@@ -281,6 +288,7 @@ pub fn run_c32(batch: &str, tape: &mut Tape, rep: &mut Report) {
         let t0 = tokio::time::Instant::now();
         for (i, (at, rq)) in plan.iter().cloned().enumerate() {
             let (routes, coord, groups, net, overlap) = (routes.clone(), coord.clone(), groups.clone(), net.clone(), overlap.clone());
+            let (causes, mutating_in_flight) = (causes.clone(), mutating_in_flight.clone());
             let fut = async move {
                 tokio::time::sleep_until(t0 + Duration::from_millis(at)).await;
                 {
@@ -289,6 +297,15 @@ pub fn run_c32(batch: &str, tape: &mut Tape, rep: &mut Report) {
                     if o.0 > 1 { o.1 = true; }
                 }
                 net.lock().unwrap().events.push(format!("request #{} {:?} start", i, rq));
+                let mutating = matches!(rq, Rq::Deploy(_) | Rq::Teardown(_) | Rq::Migrate(..) | Rq::Drain(_) | Rq::Rebalance | Rq::Tick | Rq::Register(_) | Rq::Deregister(_));
+                if mutating {
+                    let mut m = mutating_in_flight.lock().unwrap();
+                    *m += 1;
+                    if *m > 1 { causes.lock().unwrap().insert("overlapping-requests"); }
+                }
+                if let Rq::Register(w) = &rq {
+                    if coord.read().await.workers.contains_key(&WorkerId(format!("w{}", w))) { causes.lock().unwrap().insert("worker-registered-again"); }
+                }
                 let out = match &rq {
                     Rq::Deploy(slot) => {
                         // pipeline names are unique per deploy (names are only unique within a group in varpulis; two groups
@@ -323,6 +340,8 @@ pub fn run_c32(batch: &str, tape: &mut Tape, rep: &mut Report) {
                     Rq::Tick => { health_tick(&coord).await; 200 }
                 };
                 net.lock().unwrap().events.push(format!("request #{} {:?} -> {}", i, rq, out));
+                if mutating { *mutating_in_flight.lock().unwrap() -= 1; }
+                if matches!(rq, Rq::Deregister(_) | Rq::Drain(_)) && out / 100 == 2 { causes.lock().unwrap().insert("worker-removed"); }
                 overlap.lock().unwrap().0 -= 1;
             };
             tasks.push(tokio::spawn(fut));
@@ -373,8 +392,18 @@ pub fn run_c32(batch: &str, tape: &mut Tape, rep: &mut Report) {
     if overlapped {
         rep.probe("requests-overlapped-in-time");
     }
+    // signature = the circumstance of this run that a listed known finding needs (most specific first); a run with none
+    // of them is judged without any known finding in the way
+    let cs = causes.lock().unwrap().clone();
+    let lost_replies = g.faults.get("worker-call-reply-lost").copied().unwrap_or(0) > 0;
+    // a teardown (or the undeploy half of a migration) whose DELETE call to the worker failed: the coordinator drops
+    // the placement anyway while the worker keeps running, and reporting, the pipeline
+    let del_issued = g.events.iter().filter(|e| e.starts_with("worker-call DELETE") && e.ends_with(" issued")).count();
+    let del_ok = g.events.iter().filter(|e| e.starts_with("worker-call DELETE") && (e.ends_with(" returned 200") || e.ends_with(" returned 204"))).count();
+    let delete_failed = del_issued > del_ok; // HTTP error, or no reply at all (timeout)
+    let cause = if cs.contains("worker-registered-again") { "worker-registered-again" } else if cs.contains("worker-removed") { "worker-removed" } else if cs.contains("overlapping-requests") { "overlapping-requests" } else if lost_replies { "worker-reply-lost" } else if delete_failed { "undeploy-call-failed" } else { "none" };
     for (class, detail) in findings {
-        rep.violate(&class, batch, detail);
+        rep.violate(&class, cause, detail);
     }
     rep.ops += nreq;
     rep.state(vsim_core::rng::mix(&[g.events.len() as u64, overlapped as u64]));
@@ -858,7 +887,8 @@ pub fn run_c38(batch: &str, tape: &mut Tape, rep: &mut Report) {
                     Op::ConnCreate(k) => { let r = call(target.routes.clone(), "POST", "/api/v1/cluster/connectors".into(), Some(json!({"name": format!("conn{}", k), "connector_type": "mqtt", "params": {"host": format!("h{}", gen)}})), key.clone()).await.map(|r| r.status); if r.map(|s| s / 100 == 2).unwrap_or(false) { conns.insert(*k); } r }
                     Op::ConnUpdate(k) => {
                         // the body's own name need not repeat the path name (the handlers accept both)
-                        let body_name = if tape.chance(1, 3) { format!("conn{}-renamed", k) } else { format!("conn{}", k) };
+                        let body_name = if tape.chance(1, 3) { format!("conn{}_renamed", k) } else { format!("conn{}", k) };
+                        if body_name.ends_with("_renamed") { log.push(format!("t={}s (the next update's body carries the name {})", now_s(), body_name)); }
                         call(target.routes.clone(), "PUT", format!("/api/v1/cluster/connectors/conn{}", k), Some(json!({"name": body_name, "connector_type": "mqtt", "params": {"host": format!("u{}", gen)}})), key.clone()).await.map(|r| r.status)
                     }
                     Op::ConnDelete(k) => { let r = call(target.routes.clone(), "DELETE", format!("/api/v1/cluster/connectors/conn{}", k), None, key.clone()).await.map(|r| r.status); if r.map(|s| s / 100 == 2).unwrap_or(false) { conns.remove(k); } r }
